@@ -63,10 +63,11 @@ class FortranRegularExpressions:
     END_PROG: Pattern = compile(r"PROGRAM", I)
     INT: Pattern = compile(r"[ ]*(ABSTRACT)?[ ]*INTERFACE[ ]*(\w*)", I)
     END_INT: Pattern = compile(r"INTERFACE", I)
+    # A bare END stands alone; END FILE <unit> is an I/O statement, not a scope end
     END_WORD: Pattern = compile(
-        r"[ ]*END[ ]*(DO|WHERE|IF|BLOCK|CRITICAL|ASSOCIATE|SELECT"
+        r"[ ]*END[ ]*(?:(DO|WHERE|IF|BLOCK|CRITICAL|ASSOCIATE|SELECT"
         r"|TYPE|ENUM|MODULE|SUBMODULE|PROGRAM|INTERFACE"
-        r"|SUBROUTINE|FUNCTION|PROCEDURE|FORALL)?([ ]+(?!\W)|$)",
+        r"|SUBROUTINE|FUNCTION|PROCEDURE|FORALL)([ ]+(?!\W)|$)|$)",
         I,
     )
     TYPE_DEF: Pattern = compile(r"[ ]*(TYPE)[, :]+", I)
